@@ -356,11 +356,11 @@ Body(ep, shape, d) == d @@ BodyBase(ep, shape)
 \* The Model does not look at `via` (how the caller reaches the Datasource), so the design-level run fixes it.
 \* Narrow (quick) run: a star-shaped slice - at most one of {options, base URL, limiter} away from its default -
 \* and a slice of the environment.  Wide run: the star for every base URL plus the full product of arguments x
-\* options x limiter for two of the seven base URLs (the Model's treatment of the base is independent of the rest).
+\* options x limiter for one of the seven base URLs (the Model's treatment of the base is independent of the rest).
 Star(x)    == \/ (x.base = "" /\ x.lim = "none")
               \/ (x.opts = << >> /\ x.lim = "none")
               \/ (x.opts = << >> /\ x.base = "")
-MCCalls    == IF Wide THEN {x \in CallsVia({"ds"}, {"bg"}) : Star(x) \/ x.base \in {"", "http://m1.example/mirror%2Feu/api/0.6"}}
+MCCalls    == IF Wide THEN {x \in CallsVia({"ds"}, {"bg"}) : Star(x) \/ x.base = "http://m1.example/mirror%2Feu/api/0.6"}
                       ELSE {x \in CallsVia({"ds"}, {"bg"}) : Star(x)}
 \* Environment of the design-level run.  The Model looks at the document only when the status is 200, so other
 \* statuses are paired with two documents (with and without elements) instead of all of them.
